@@ -103,6 +103,40 @@ theorem args_as_typed (ps : Plugins) (name : List Char) (p) (hp : ps name = some
     dispatch ps (some (command name args)) = frame (p args) := by
   simp [dispatch, command, split_encode_roundtrip, hp]
 
+/-- the same for the request the `kvarnctl` binary builds from its command line: whatever the command word and the
+arguments contain (spaces, either quote, backslashes, empty strings), the plugin registered under that word is
+called with exactly the arguments typed -/
+theorem kvarnctl_args_as_typed (ps : Plugins) (cmd : List Char) (p) (hp : ps cmd = some p)
+    (args : List (List Char)) (hne : args ≠ []) :
+    dispatch ps (some (kvarnctl cmd args)) = frame (p args) := by
+  have : args.isEmpty = false := by cases args <;> simp_all
+  simp only [kvarnctl, this, Bool.false_eq_true, ↓reduceIte]
+  exact args_as_typed ps cmd p hp args
+
+def Plain (c : Char) : Prop := c ≠ ' ' ∧ c ≠ '"' ∧ c ≠ '\'' ∧ c ≠ '\\'
+
+theorem go_plain (w : List Char) (hw : ∀ c ∈ w, Plain c) (cur : List Char) (hq : Bool) (rest : List Char) :
+    go { q := .no, esc := false, cur := cur, hq := hq } (w ++ rest) =
+      go { q := .no, esc := false, cur := cur ++ w, hq := hq } rest := by
+  induction w generalizing cur with
+  | nil => simp
+  | cons c w ih =>
+    obtain ⟨h1, h2, h3, h4⟩ := hw c (by simp)
+    have := ih (fun d hd => hw d (by simp [hd])) (cur ++ [c])
+    simp only [List.cons_append, go, h4, h1, h2, h3, false_and, ↓reduceIte, Bool.false_eq_true]
+    rw [this]; simp
+
+/-- without arguments the command goes out as typed: a plain word (no space, quote or backslash) arrives as that word -/
+theorem kvarnctl_plain_command (cmd : List Char) (hne : cmd ≠ []) (hw : ∀ c ∈ cmd, Plain c) :
+    split (kvarnctl cmd []) = [cmd] := by
+  have := go_plain cmd hw [] false []
+  simp only [List.append_nil, List.nil_append] at this
+  simp only [kvarnctl, List.isEmpty_nil, ↓reduceIte, split]
+  rw [this]
+  cases cmd with
+  | nil => exact absurd rfl hne
+  | cons c cs => simp [go]
+
 abbrev startsWithError (r : Reply) : Prop := r.data.take 5 = ['e','r','r','o','r']
 
 /-- non-UTF-8 input, unknown commands and plugin errors all answer `error…` and leave the socket open
